@@ -29,10 +29,13 @@ type Plan struct {
 	Groups       []Group
 	CorpusGroups []Group // configurations the tests/**.ego corpus is run under
 	CorpusModes  []string
-	OutOnly      bool // only OUT| lines are program output (C12)
-	Progs        []Prog
-	PackSize     int
-	ConfirmCap   int // fresh confirmations per (form, mode, configuration)
+	// CorpusTraceDirs limits the directories run under --trace (tracing is
+	// about 20 times slower); empty = all.
+	CorpusTraceDirs []string
+	OutOnly         bool // only OUT| lines are program output (C12)
+	Progs           []Prog
+	PackSize        int
+	ConfirmCap      int // fresh confirmations per (form, mode, configuration)
 }
 
 // Witness is a self-contained failing case.
@@ -153,6 +156,8 @@ type candidate struct {
 	cfg    int // index into group.Configs
 	sig    string
 	packed bool
+	file   string // packed file the program ran in
+	has    bool   // packed: the program's segment was present
 }
 
 var t0 = time.Now()
@@ -182,6 +187,29 @@ func devFilter(r *report.R, plan *Plan) {
 		plan.Progs = keep
 
 		r.Capped("development filter PDIFF_FORMS=" + re)
+	}
+
+	if re := os.Getenv("PDIFF_CFG"); re != "" {
+		rx := regexp.MustCompile(re)
+
+		filter := func(gs []Group) {
+			for i := range gs {
+				var keep []Config
+
+				for _, c := range gs[i].Configs {
+					if rx.MatchString(c.Label()) {
+						keep = append(keep, c)
+					}
+				}
+
+				gs[i].Configs = keep
+			}
+		}
+
+		filter(plan.Groups)
+		filter(plan.CorpusGroups)
+
+		r.Capped("development filter PDIFF_CFG=" + re)
 	}
 
 	if n, _ := strconv.Atoi(os.Getenv("PDIFF_MAXCFG")); n > 0 {
@@ -223,7 +251,7 @@ func Run(r *report.R, plan *Plan) {
 
 	for i := range plan.Progs {
 		p := &plan.Progs[i]
-		if err := os.WriteFile(e.soloPath(p.ID), []byte(Source([]Prog{*p}, false)), 0o644); err != nil {
+		if err := os.WriteFile(e.soloPath(p.ID), []byte(Source([]Prog{*p}, styleSolo)), 0o644); err != nil {
 			report.Fatal("%v", err)
 		}
 	}
@@ -249,13 +277,12 @@ func Run(r *report.R, plan *Plan) {
 // layout decides, for one mode, which programs share packed files and which
 // run solo, by running the group's baseline.
 type layout struct {
-	files    []file
-	packed   map[int][]string // baseline segment per packed program
-	solo     map[int]Obs      // baseline observation per solo program
-	soloDone map[int]bool
+	files  []file
+	packed map[int][]string
+	solo   map[int]Obs
 }
 
-func (e *engine) pack(dirKey string, gen int, ids []int, byID map[int]*Prog) []file {
+func (e *engine) pack(dirKey string, gen int, ids []int, byID map[int]*Prog, style int) []file {
 	var files []file
 
 	dir := filepath.Join(e.run.Scratch, "src", dirKey)
@@ -273,7 +300,7 @@ func (e *engine) pack(dirKey string, gen int, ids []int, byID map[int]*Prog) []f
 		}
 
 		path := filepath.Join(dir, fmt.Sprintf("g%d_f%d.ego", gen, lo/e.plan.PackSize))
-		if err := os.WriteFile(path, []byte(Source(ps, true)), 0o644); err != nil {
+		if err := os.WriteFile(path, []byte(Source(ps, style)), 0o644); err != nil {
 			report.Fatal("%v", err)
 		}
 
@@ -284,7 +311,7 @@ func (e *engine) pack(dirKey string, gen int, ids []int, byID map[int]*Prog) []f
 }
 
 func (e *engine) buildLayout(gi int, base Config, mode string, byID map[int]*Prog) *layout {
-	lay := &layout{packed: map[int][]string{}, solo: map[int]Obs{}, soloDone: map[int]bool{}}
+	lay := &layout{packed: map[int][]string{}, solo: map[int]Obs{}}
 
 	var packIDs, soloIDs []int
 
@@ -306,7 +333,7 @@ func (e *engine) buildLayout(gi int, base Config, mode string, byID map[int]*Pro
 	// whole are tried alone; the clean ones are packed again, the others stay
 	// solo in this mode.
 	for gen := 0; gen < 2 && len(packIDs) > 0; gen++ {
-		files := e.pack(fmt.Sprintf("g%d-%s", gi, mode), gen, packIDs, byID)
+		files := e.pack(fmt.Sprintf("g%d-%s", gi, mode), gen, packIDs, byID, styleWrapped)
 
 		var failed []int
 
@@ -325,6 +352,7 @@ func (e *engine) buildLayout(gi int, base Config, mode string, byID map[int]*Pro
 
 			if !ok {
 				failed = append(failed, f.ids...)
+				progress("  %s gen %d: %s does not come through whole (done=%v rc=%d): %s", mode, gen, filepath.Base(f.path), raw.Done, raw.RC, firstLine(raw.Stderr))
 
 				return
 			}
@@ -390,7 +418,6 @@ func (e *engine) buildLayout(gi int, base Config, mode string, byID map[int]*Pro
 		defer mu.Unlock()
 
 		lay.solo[f.ids[0]] = Observe(raw, e.plan.OutOnly)
-		lay.soloDone[f.ids[0]] = raw.Done
 	})
 	wg.Wait()
 
@@ -398,6 +425,16 @@ func (e *engine) buildLayout(gi int, base Config, mode string, byID map[int]*Pro
 	lay.files = append(lay.files, sf...)
 
 	return lay
+}
+
+func firstLine(s string) string {
+	for _, l := range strings.Split(s, "\n") {
+		if strings.TrimSpace(l) != "" {
+			return l
+		}
+	}
+
+	return ""
 }
 
 func sigOf(lines []string, extra ...string) string {
@@ -414,6 +451,61 @@ func sigOf(lines []string, extra ...string) string {
 	}
 
 	return hex.EncodeToString(h.Sum(nil)[:8])
+}
+
+// fileset is a list of source files of one mode together with the baseline
+// (reference) result of every program in it.
+type fileset struct {
+	files    []file
+	packed   map[int][]string // reference segment per packed program
+	solo     map[int]Obs      // reference observation per solo program
+	soloDone map[int]bool
+	noRef    int
+}
+
+func newFileset(files []file) *fileset {
+	return &fileset{files: files, packed: map[int][]string{}, solo: map[int]Obs{}, soloDone: map[int]bool{}}
+}
+
+// reference runs the baseline over exactly the files, in exactly the order
+// and grouping, that every configuration will run (so that a batch process of
+// the baseline and one of a configuration differ in the configuration only).
+func (e *engine) reference(wg *sync.WaitGroup, mu *sync.Mutex, base Config, mode string, fs *fileset) {
+	e.runFiles(wg, base, mode, fs.files, func(f file, raw *Raw) {
+		mu.Lock()
+		defer mu.Unlock()
+
+		if f.packed {
+			segs := Segments(raw, e.plan.OutOnly)
+
+			for _, id := range f.ids {
+				if seg, has := segs[id]; has {
+					fs.packed[id] = seg
+				} else {
+					fs.noRef++
+				}
+			}
+
+			return
+		}
+
+		if raw.Done {
+			fs.solo[f.ids[0]] = Observe(raw, e.plan.OutOnly)
+			fs.soloDone[f.ids[0]] = true
+		} else {
+			fs.noRef++
+		}
+	})
+}
+
+func escapes(seg []string) bool {
+	for _, l := range seg {
+		if strings.HasPrefix(l, "OUT|#X") {
+			return true
+		}
+	}
+
+	return false
 }
 
 func (e *engine) runGroup(gi int, byID map[int]*Prog) []candidate {
@@ -444,32 +536,91 @@ func (e *engine) runGroup(gi int, byID map[int]*Prog) []candidate {
 
 	lw.Wait()
 
+	// Set 0: the packed files call every program inside its own try/catch.
+	sets := map[string][2]*fileset{}
+
 	for _, mode := range e.plan.Modes {
-		progress("group %d layout %s: %d packed programs, %d solo, %d files", gi, mode, len(layouts[mode].packed), len(layouts[mode].solo), len(layouts[mode].files))
+		fs := newFileset(layouts[mode].files)
+		sets[mode] = [2]*fileset{fs, nil}
+
+		e.reference(&wg, &mu, g.Base, mode, fs)
+	}
+
+	wg.Wait()
+
+	// Set 1, for the debugger: the same programs called bare, because a try
+	// block around the call is itself affected by the debugger. Programs whose
+	// error escapes their function run alone instead.
+	needBare := false
+
+	for _, c := range g.Configs {
+		if c.Diag == "debug" {
+			needBare = true
+		}
+	}
+
+	if needBare {
+		for _, mode := range e.plan.Modes {
+			ref := sets[mode][0]
+
+			var packIDs []int
+
+			var files []file
+
+			for _, f := range ref.files {
+				for _, id := range f.ids {
+					if seg, has := ref.packed[id]; f.packed && has && !escapes(seg) {
+						packIDs = append(packIDs, id)
+					} else {
+						files = append(files, file{path: e.soloPath(id), ids: []int{id}})
+					}
+				}
+			}
+
+			sort.Ints(packIDs)
+
+			bare := e.pack(fmt.Sprintf("g%d-%s-bare", gi, mode), 0, packIDs, byID, styleBare)
+			fs := newFileset(append(bare, files...))
+			pair := sets[mode]
+			pair[1] = fs
+			sets[mode] = pair
+
+			e.reference(&wg, &mu, g.Base, mode, fs)
+		}
+
+		wg.Wait()
 	}
 
 	nPacked, nSolo := 0, 0
 
 	for _, mode := range e.plan.Modes {
-		lay := layouts[mode]
-		nPacked += len(lay.packed)
-		nSolo += len(lay.solo)
+		fs := sets[mode][0]
+
+		for _, x := range sets[mode] {
+			if x != nil && x.noRef > 0 {
+				e.r.Add("programs_without_baseline_result", int64(x.noRef))
+			}
+		}
+
+		nPacked += len(fs.packed)
+		nSolo += len(fs.solo)
 
 		// What counts as a distinct non-trivial case: a program that, in this
-		// mode, produced output under the baseline.
-		for id, seg := range lay.packed {
+		// mode, produced output or an error under the baseline.
+		for id, seg := range fs.packed {
 			if len(seg) > 0 {
 				e.r.Distinct(mode + "|" + byID[id].Key())
 			}
 		}
 
-		for id, o := range lay.solo {
+		for id, o := range fs.solo {
 			if len(o.Out) > 0 || len(o.Err) > 0 {
 				e.r.Distinct(mode + "|" + byID[id].Key())
 			}
 		}
 
-		e.r.Eval(len(lay.packed) + len(lay.solo))
+		e.r.Eval(len(fs.packed) + len(fs.solo))
+		progress("group %d %s: %d packed programs, %d solo, %d files", gi, mode, len(fs.packed), len(fs.solo), len(fs.files))
 	}
 
 	e.r.Add("program_runs_packed_per_config", int64(nPacked))
@@ -477,31 +628,42 @@ func (e *engine) runGroup(gi int, byID map[int]*Prog) []candidate {
 
 	for ci, cfg := range g.Configs {
 		for _, mode := range e.plan.Modes {
-			lay := layouts[mode]
+			fs := sets[mode][0]
+			if cfg.Diag == "debug" {
+				fs = sets[mode][1]
+			}
+
 			ci, cfg, mode := ci, cfg, mode
 
-			e.runFiles(&wg, cfg, mode, lay.files, func(f file, raw *Raw) {
+			e.runFiles(&wg, cfg, mode, fs.files, func(f file, raw *Raw) {
 				var found []candidate
 
 				if f.packed {
 					segs := Segments(raw, e.plan.OutOnly)
 
 					for _, id := range f.ids {
+						ref, hasRef := fs.packed[id]
+						if !hasRef {
+							continue
+						}
+
 						seg, has := segs[id]
-						if !has || !eqLines(seg, lay.packed[id]) {
+						if !has || !eqLines(seg, ref) {
 							sig := "missing"
 							if has {
 								sig = sigOf(seg)
 							}
 
-							found = append(found, candidate{prog: id, mode: mode, group: gi, cfg: ci, sig: sig, packed: true})
+							found = append(found, candidate{prog: id, mode: mode, group: gi, cfg: ci, sig: sig, packed: true, file: f.path, has: has})
 						}
 					}
 				} else {
 					id := f.ids[0]
 					o := Observe(raw, e.plan.OutOnly)
 
-					if !raw.Done || !lay.soloDone[id] || !o.Equal(lay.solo[id]) {
+					if !fs.soloDone[id] {
+						// no baseline result: nothing to compare with
+					} else if !raw.Done || !o.Equal(fs.solo[id]) {
 						found = append(found, candidate{prog: id, mode: mode, group: gi, cfg: ci, sig: sigOf(o.Out, o.Err...) + fmt.Sprint(o.Failed, raw.Done)})
 					}
 				}
@@ -547,27 +709,35 @@ func slug(s string, max int) string {
 
 var errPos = regexp.MustCompile(`^Error: (at [^,]*, )?`)
 
-// errSlug names an error message without its position prefix.
+var typeWord = regexp.MustCompile(`\b(u?int(8|16|32|64)?|byte|float(32|64)|string|bool)\b`)
+
+// errSlug names an error message without its position prefix and operands.
 func errSlug(lines []string) string {
 	if len(lines) == 0 {
 		return "no-message"
 	}
 
-	return slug(errPos.ReplaceAllString(lines[0], ""), 48)
+	msg := errPos.ReplaceAllString(lines[0], "")
+	if i := strings.Index(msg, ": "); i > 0 {
+		msg = msg[:i] // drop the operand part ("type mismatch: int8, int")
+	}
+
+	return slug(msg, 48)
 }
 
 var caughtPos = regexp.MustCompile(`at [^ ,]*\(line N\), `)
 
 // classify names the kind of difference between a baseline and a configuration
-// result; the result is the tail of the violation cell.
+// result; the result is the tail of the violation cell. The names describe the
+// symptom class (what the configuration does instead), with operand types,
+// numbers and positions abstracted away, so that one defect seen on many
+// types and values lands in one cell.
 func classify(base, got Obs) string {
 	switch {
-	case !base.Failed && got.Failed:
-		return "error-appears:" + errSlug(got.Err)
+	case got.Failed && (!base.Failed || !eqLines(base.Err, got.Err)):
+		return "error:" + errSlug(got.Err)
 	case base.Failed && !got.Failed:
 		return "error-vanishes:" + errSlug(base.Err)
-	case base.Failed && got.Failed && !eqLines(base.Err, got.Err):
-		return "error-changes:" + errSlug(base.Err) + "->" + errSlug(got.Err)
 	}
 
 	// Same outcome: the output differs. Name the first differing line.
@@ -581,57 +751,84 @@ func classify(base, got Obs) string {
 			b := caughtPos.ReplaceAllString(base.Out[i], "")
 			c := caughtPos.ReplaceAllString(got.Out[i], "")
 
-			if bt, ct, ok := typeOnlyDiff(b, c); ok {
-				return "type-differs:" + bt + "->" + ct
+			if d, ok := valueTypeDiff(b, c); ok {
+				return d
 			}
 
-			return "output-differs:" + slug(b, 40) + "->" + slug(c, 40)
+			if slug(b, 200) == slug(c, 200) {
+				return "output-differs:value" // same shape, other numbers
+			}
+
+			c = strings.TrimPrefix(c, "OUT|")
+			if j := strings.Index(c, ": "); j > 0 {
+				c = c[:j]
+			}
+
+			return "output-differs:" + slug(typeWord.ReplaceAllString(c, "T"), 40)
 		}
 	}
 
 	if len(got.Out) < len(base.Out) {
-		return "output-lost:" + slug(base.Out[n], 40)
+		return "output-lost"
 	}
 
 	if len(got.Out) > len(base.Out) {
-		return "output-added:" + slug(got.Out[n], 40)
+		return "output-added"
 	}
 
-	return "error-text-differs:" + errSlug(base.Err) + "->" + errSlug(got.Err)
+	return "error-text-differs:" + errSlug(got.Err)
 }
 
-// typeOnlyDiff recognises two `value type | value type` lines that differ only
-// in a type word.
-func typeOnlyDiff(a, b string) (string, string, bool) {
-	fa, fb := strings.Fields(a), strings.Fields(b)
-	if len(fa) != len(fb) {
-		return "", "", false
+var typeToken = regexp.MustCompile(`^(\[\]|\*)*(u?int(8|16|32|64)?|byte|float(32|64)|string|bool|interface\{\}|any|error|[A-Z][A-Za-z0-9]*)$`)
+
+// valueTypeDiff recognises two `OUT|value type | value type` lines and says
+// whether a value, a type, or both differ.
+func valueTypeDiff(a, b string) (string, bool) {
+	pa := strings.Split(strings.TrimPrefix(a, "OUT|"), " | ")
+	pb := strings.Split(strings.TrimPrefix(b, "OUT|"), " | ")
+
+	if len(pa) != len(pb) {
+		return "", false
 	}
 
-	at, bt := "", ""
+	valueDiffers, typeDiffers, toType := false, false, ""
 
-	for i := range fa {
-		if fa[i] == fb[i] {
-			continue
+	for i := range pa {
+		fa, fb := strings.Fields(pa[i]), strings.Fields(pb[i])
+		if len(fa) < 2 || len(fb) < 2 {
+			return "", false
 		}
 
-		if at != "" || !isTypeWord(fa[i]) || !isTypeWord(fb[i]) {
-			return "", "", false
+		ta, tb := fa[len(fa)-1], fb[len(fb)-1]
+		if !typeToken.MatchString(ta) || !typeToken.MatchString(tb) {
+			return "", false
 		}
 
-		at, bt = fa[i], fb[i]
+		va, vb := strings.Join(fa[:len(fa)-1], " "), strings.Join(fb[:len(fb)-1], " ")
+
+		if ta != tb {
+			typeDiffers = true
+
+			if toType == "" {
+				toType = tb
+			}
+		}
+
+		if va != vb {
+			valueDiffers = true
+		}
 	}
 
-	return at, bt, at != ""
-}
-
-func isTypeWord(s string) bool {
-	switch s {
-	case "int", "int8", "int16", "int32", "int64", "byte", "uint", "uint8", "uint16", "uint32", "uint64", "float32", "float64", "string", "bool", "interface{}", "any":
-		return true
+	switch {
+	case valueDiffers && typeDiffers:
+		return "output-differs:value-and-type", true
+	case typeDiffers:
+		return "type-differs:to-" + slug(toType, 16), true
+	case valueDiffers:
+		return "output-differs:value", true
 	}
 
-	return false
+	return "", false
 }
 
 func cmdLine(args []string) string { return "ego " + strings.Join(args, " ") }
@@ -668,6 +865,8 @@ func (e *engine) confirm(cands []candidate, byID map[int]*Prog) {
 	})
 
 	e.r.Set("batch_disagreements", len(cands))
+
+	cands = e.soloStage(cands, byID)
 
 	// One confirmation per (program, mode, group, difference signature): the
 	// configuration with the fewest deviations. Then a cap per
@@ -714,8 +913,9 @@ func (e *engine) confirm(cands []candidate, byID map[int]*Prog) {
 	var confirmed, vanished, unstable int64
 
 	var (
-		mu sync.Mutex
-		wg sync.WaitGroup
+		mu    sync.Mutex
+		wg    sync.WaitGroup
+		found []confirmedDiff
 	)
 
 	for _, p := range picks {
@@ -739,6 +939,7 @@ func (e *engine) confirm(cands []candidate, byID map[int]*Prog) {
 			}
 
 			if b1.Equal(c1) {
+				progress("  not reproduced fresh: %s %s [%s] %s packed=%v", prog.Key(), p.c.mode, cfg.Label(), filepath.Base(path), p.c.packed)
 				mu.Lock()
 				vanished++
 				mu.Unlock()
@@ -763,25 +964,322 @@ func (e *engine) confirm(cands []candidate, byID map[int]*Prog) {
 
 			w := Witness{
 				Kind: "program", Form: prog.Form, Type: prog.Typ, Variant: prog.Variant, Mode: p.c.mode,
-				Base: g.Base, Config: cfg, Source: Source([]Prog{*prog}, false),
+				Base: g.Base, Config: cfg, Source: Source([]Prog{*prog}, styleSolo),
 				BaseCmd: cmdLine(g.Base.Args(p.c.mode, "prog.ego", "aux")), Cmd: cmdLine(cfg.Args(p.c.mode, "prog.ego", "aux")),
 				BaseObs: b1, Obs: c1, Also: p.also,
 			}
 
-			e.reportDiff(w, cfg, g.Base, len(prog.Body)+len(prog.Decls))
+			mu.Lock()
+			found = append(found, confirmedDiff{w: w, cfg: cfg, base: g.Base, prog: prog.ID, group: p.c.group, size: len(prog.Body) + len(prog.Decls)})
+			mu.Unlock()
 		})
 	}
 
 	wg.Wait()
 
+	// A difference seen under a configuration is attributed to the smallest
+	// set of active features: when the same program, in the same mode, shows
+	// the same kind of difference under a configuration whose features are a
+	// proper subset, the larger configuration adds nothing and is only counted.
+	sort.Slice(found, func(i, j int) bool {
+		a, b := found[i], found[j]
+		if a.prog != b.prog {
+			return a.prog < b.prog
+		}
+
+		if a.w.Mode != b.w.Mode {
+			return a.w.Mode < b.w.Mode
+		}
+
+		return a.cfg.Label() < b.cfg.Label()
+	})
+
+	explained := 0
+
+	for i, d := range found {
+		redundant := false
+
+		for j, o := range found {
+			if i == j || o.prog != d.prog || o.group != d.group || o.w.Mode != d.w.Mode || d.cfg.Diag != o.cfg.Diag {
+				continue
+			}
+
+			fo, fd := o.cfg.featureBits(), d.cfg.featureBits()
+			if fo != fd && fo&fd == fo && classify(o.w.BaseObs, o.w.Obs) == classify(d.w.BaseObs, d.w.Obs) {
+				redundant = true
+
+				break
+			}
+		}
+
+		if redundant {
+			explained++
+
+			continue
+		}
+
+		e.reportDiff(d.w, d.cfg, d.base, d.size)
+	}
+
+	e.r.Set("confirmed_differences_already_shown_by_a_subset_of_the_features", explained)
 	e.r.Set("disagreements_confirmed_fresh", confirmed)
 	e.r.Set("disagreements_not_reproduced_fresh", vanished)
 	e.r.Set("disagreements_unstable_or_cut", unstable)
 }
 
+type confirmedDiff struct {
+	w           Witness
+	cfg, base   Config
+	prog, group int
+	size        int
+}
+
+// soloStage re-runs every program that disagreed inside a packed file alone
+// (still in batch processes) under the baseline and the configuration. A
+// program that also disagrees alone goes on to fresh confirmation as a solo
+// candidate; for the others the packed file itself is confirmed fresh.
+func (e *engine) soloStage(cands []candidate, byID map[int]*Prog) []candidate {
+	type gk struct {
+		group, cfg int
+		mode       string
+	}
+
+	groups := map[gk][]candidate{}
+
+	var (
+		out   []candidate
+		order []gk
+	)
+
+	for _, c := range cands {
+		if !c.packed {
+			out = append(out, c)
+
+			continue
+		}
+
+		k := gk{c.group, c.cfg, c.mode}
+		if _, ok := groups[k]; !ok {
+			order = append(order, k)
+		}
+
+		groups[k] = append(groups[k], c)
+	}
+
+	var (
+		mu         sync.Mutex
+		wg         sync.WaitGroup
+		packedOnly []candidate
+	)
+
+	type res struct {
+		base, got map[int]Obs
+		bd, gd    map[int]bool
+	}
+
+	results := map[gk]*res{}
+
+	for _, k := range order {
+		k := k
+		rs := &res{base: map[int]Obs{}, got: map[int]Obs{}, bd: map[int]bool{}, gd: map[int]bool{}}
+		results[k] = rs
+
+		var files []file
+
+		seen := map[int]bool{}
+
+		for _, c := range groups[k] {
+			if !seen[c.prog] {
+				seen[c.prog] = true
+				files = append(files, file{path: e.soloPath(c.prog), ids: []int{c.prog}})
+			}
+		}
+
+		g := e.plan.Groups[k.group]
+
+		e.runFiles(&wg, g.Base, k.mode, files, func(f file, raw *Raw) {
+			mu.Lock()
+			rs.base[f.ids[0]] = Observe(raw, e.plan.OutOnly)
+			rs.bd[f.ids[0]] = raw.Done
+			mu.Unlock()
+		})
+		e.runFiles(&wg, g.Configs[k.cfg], k.mode, files, func(f file, raw *Raw) {
+			mu.Lock()
+			rs.got[f.ids[0]] = Observe(raw, e.plan.OutOnly)
+			rs.gd[f.ids[0]] = raw.Done
+			mu.Unlock()
+		})
+	}
+
+	wg.Wait()
+
+	for _, k := range order {
+		rs := results[k]
+
+		for _, c := range groups[k] {
+			b, g := rs.base[c.prog], rs.got[c.prog]
+
+			if !rs.bd[c.prog] || !rs.gd[c.prog] || !b.Equal(g) {
+				c.packed = false
+				c.sig = sigOf(g.Out, g.Err...) + fmt.Sprint(g.Failed)
+				out = append(out, c)
+			} else {
+				packedOnly = append(packedOnly, c)
+			}
+		}
+	}
+
+	e.r.Set("packed_disagreements_that_also_show_alone", len(out))
+	e.r.Set("packed_disagreements_that_need_the_whole_file", len(packedOnly))
+
+	e.confirmPacked(packedOnly, byID)
+
+	sort.SliceStable(out, func(i, j int) bool {
+		a, b := out[i], out[j]
+		if a.group != b.group {
+			return a.group < b.group
+		}
+
+		if a.cfg != b.cfg {
+			return a.cfg < b.cfg
+		}
+
+		if a.prog != b.prog {
+			return a.prog < b.prog
+		}
+
+		return a.mode < b.mode
+	})
+
+	return out
+}
+
+// packedConfirmCap bounds the whole-file confirmations of one run.
+const packedConfirmCap = 24
+
+// confirmPacked confirms, in fresh processes, disagreements that only show
+// when the program runs inside its packed file (next to the other programs of
+// that file). One confirmation per (file, mode, group): the configuration
+// with the fewest deviations.
+func (e *engine) confirmPacked(cands []candidate, byID map[int]*Prog) {
+	type fk struct {
+		group int
+		mode  string
+		file  string
+	}
+
+	seen := map[fk]bool{}
+
+	var picks []candidate
+
+	skipped := 0
+
+	for _, c := range cands {
+		k := fk{c.group, c.mode, c.file}
+		if seen[k] {
+			continue
+		}
+
+		seen[k] = true
+
+		if len(picks) >= packedConfirmCap {
+			skipped++
+
+			continue
+		}
+
+		picks = append(picks, c)
+	}
+
+	if skipped > 0 {
+		e.r.Set("packed_file_confirmations_skipped_cap", skipped)
+	}
+
+	var wg sync.WaitGroup
+
+	for _, c := range picks {
+		c := c
+
+		e.submit(&wg, func() {
+			g := e.plan.Groups[c.group]
+			cfg := g.Configs[c.cfg]
+
+			run := func(cf Config) (*Raw, bool) {
+				aux := filepath.Join(e.run.Scratch, "fresh", "aux-"+sigOf([]string{c.file, c.mode, cf.Label()}))
+				raw := e.run.Fresh(cf.Args(c.mode, c.file, aux), cf.Diag == "debug")
+				_ = os.Remove(aux + ".profile.json")
+				_ = os.Remove(aux + ".trace.log")
+
+				return raw, raw.Done
+			}
+
+			b1, ok1 := run(g.Base)
+			c1, ok2 := run(cfg)
+			b2, ok3 := run(g.Base)
+			c2, ok4 := run(cfg)
+
+			if !ok1 || !ok2 || !ok3 || !ok4 {
+				e.r.Add("packed_file_confirmations_cut", 1)
+
+				return
+			}
+
+			ob1, oc1, ob2, oc2 := Observe(b1, e.plan.OutOnly), Observe(c1, e.plan.OutOnly), Observe(b2, e.plan.OutOnly), Observe(c2, e.plan.OutOnly)
+			if !ob1.Equal(ob2) || !oc1.Equal(oc2) {
+				e.r.Add("packed_file_confirmations_unstable", 1)
+
+				return
+			}
+
+			if ob1.Equal(oc1) {
+				e.r.Add("packed_file_disagreements_not_reproduced_fresh", 1)
+				progress("  packed file not reproduced fresh: %s %s [%s]", filepath.Base(c.file), c.mode, cfg.Label())
+
+				return
+			}
+
+			// Name the first program of the file whose segment differs.
+			sb, sc := Segments(b1, e.plan.OutOnly), Segments(c1, e.plan.OutOnly)
+			bo, co := ob1, oc1
+			prog := byID[c.prog]
+
+			ids := make([]int, 0, len(sb))
+			for id := range sb {
+				ids = append(ids, id)
+			}
+
+			sort.Ints(ids)
+
+			for _, id := range ids {
+				if seg, has := sc[id]; has && !eqLines(seg, sb[id]) {
+					prog = byID[id]
+					bo = Obs{Out: sb[id]}
+					co = Obs{Out: seg}
+
+					break
+				}
+			}
+
+			src, _ := os.ReadFile(c.file)
+
+			w := Witness{
+				Kind: "program", Form: prog.Form, Type: prog.Typ, Variant: prog.Variant + " (inside a file of several programs)", Mode: c.mode,
+				Base: g.Base, Config: cfg, Source: string(src),
+				BaseCmd: cmdLine(g.Base.Args(c.mode, "prog.ego", "aux")), Cmd: cmdLine(cfg.Args(c.mode, "prog.ego", "aux")),
+				BaseObs: bo, Obs: co,
+			}
+
+			e.r.Add("packed_file_disagreements_confirmed_fresh", 1)
+			e.reportDiff(w, cfg, g.Base, 500000+len(src))
+		})
+	}
+
+	wg.Wait()
+}
+
 func (e *engine) reportDiff(w Witness, cfg, base Config, size int) {
-	label := cfg.Label()
-	if base.Label() != "baseline" {
+	label := cfg.Features()
+	if cfg.Diag != "" {
 		// C12: name the diagnostic only; the settings are those of the group.
 		label = cfg.Diag
 	}
@@ -790,6 +1288,7 @@ func (e *engine) reportDiff(w Witness, cfg, base Config, size int) {
 	cell := label + ":" + kind
 
 	if w.Kind == "corpus" {
+		kind = corpusKind(w)
 		cell = label + ":corpus:" + kind
 	}
 
